@@ -29,7 +29,11 @@ func (e *Engine) inL(s *Term, lang string) *Term {
 			}
 		}
 	}
-	e.langs.Get(lang) // must exist
+	re := e.langs.Get(lang) // must exist
+	if (strings.HasPrefix(lang, "NONE_OF_") || strings.HasPrefix(lang, "PFX_") || strings.HasPrefix(lang, "SFX_")) && simpleLang(re) {
+		// character-class stars and fixed affixes are given to the solver with their interpretation
+		return &Term{Op: "str.in_re", Sort: SBool, Args: []*Term{s, {Op: "raw", Str: re.SMT(), Sort: &Sort{Kind: "RegLan"}}}}
+	}
 	return App("inL:"+lang, SBool, s)
 }
 
@@ -485,4 +489,29 @@ func countIte(t *Term) int {
 		n += countIte(a)
 	}
 	return n
+}
+
+// simpleLang: C* for a byte class C, or lit·Σ*, or Σ*·lit.
+func simpleLang(r *Re) bool {
+	isAnyStar := func(x *Re) bool { return x.key == reAll.key || (x.op == "star" && x.subs[0].op == "set" && x.subs[0].set.full()) }
+	if r.op == "star" && r.subs[0].op == "set" {
+		return true
+	}
+	if r.op == "cat" && len(r.subs) >= 2 && len(r.subs) <= 10 {
+		lits := func(xs []*Re) bool {
+			for _, x := range xs {
+				if x.op != "set" {
+					return false
+				}
+			}
+			return true
+		}
+		if isAnyStar(r.subs[len(r.subs)-1]) && lits(r.subs[:len(r.subs)-1]) {
+			return true
+		}
+		if isAnyStar(r.subs[0]) && lits(r.subs[1:]) {
+			return true
+		}
+	}
+	return false
 }
